@@ -22,7 +22,10 @@ pub enum Conn {
     KeepAliveIdle,
     Long,
     WebSocket,
+    /// response larger than the socket buffers, read only after `run` has returned
+    BigResponse,
 }
+const BIG: usize = 8 << 20;
 
 fn parse_responses(mut b: &[u8]) -> (usize, usize) {
     let mut n = 0;
@@ -53,18 +56,23 @@ fn replay(bind_ip: &str, conns: &[Conn]) -> Result<String, String> {
     let target = if bind_ip.contains(':') { format!("[::1]:{}", port) } else { format!("127.0.0.1:{}", port) };
     let rt = tokio::runtime::Builder::new_multi_thread().worker_threads(2).enable_all().build().map_err(|e| e.to_string())?;
     let token = CancellationToken::new();
-    let gate = Arc::new(tokio::sync::Notify::new());
+    let gate = CancellationToken::new();
     let g2 = gate.clone();
+    let entered = Arc::new(std::sync::atomic::AtomicUsize::new(0));
+    let e2 = entered.clone();
     let app: App<()> = App::new_with_config(())
         .with_shutdown(token.clone())
         .with_stateless_route("/", |_r: Request| async { Response::new(StatusCode::OK, b"0123456789abcdefghijklmnopqrstuvwxyz-body") })
         .with_stateless_route("/slow", move |_r: Request| {
             let g = g2.clone();
+            let e = e2.clone();
             async move {
-                g.notified().await;
+                e.fetch_add(1, std::sync::atomic::Ordering::SeqCst);
+                g.cancelled().await;
                 Response::new(StatusCode::OK, b"late")
             }
         })
+        .with_stateless_route("/big", |_r: Request| async { Response::new(StatusCode::OK, vec![b'B'; BIG]) })
         .with_websocket_route("/ws", |_r: Request, mut stream: Stream, _s: Arc<()>| async move {
             let _ = stream.write_all(b"HTTP/1.1 101 Switching Protocols\r\n\r\n").await;
             let mut buf = [0u8; 16];
@@ -90,6 +98,7 @@ fn replay(bind_ip: &str, conns: &[Conn]) -> Result<String, String> {
     }
     let received: Arc<Mutex<Vec<Vec<u8>>>> = Arc::new(Mutex::new(vec![vec![]; conns.len()]));
     let mut socks = vec![];
+    let start_reading = Arc::new(std::sync::atomic::AtomicBool::new(false));
     for (i, c) in conns.iter().enumerate() {
         let mut s = std::net::TcpStream::connect(&target).map_err(|e| format!("client connect: {}", e))?;
         let bytes: &[u8] = match c {
@@ -99,13 +108,18 @@ fn replay(bind_ip: &str, conns: &[Conn]) -> Result<String, String> {
             Conn::KeepAliveIdle => b"GET / HTTP/1.1\r\nHost: x\r\nConnection: keep-alive\r\n\r\n",
             Conn::Long => b"GET /slow HTTP/1.1\r\nHost: x\r\nConnection: close\r\n\r\n",
             Conn::WebSocket => b"GET /ws HTTP/1.1\r\nHost: x\r\nUpgrade: websocket\r\nConnection: Upgrade\r\n\r\n",
+            Conn::BigResponse => b"GET /big HTTP/1.1\r\nHost: x\r\nConnection: close\r\n\r\n",
         };
         let _ = s.write_all(bytes);
+        let (sr, late_reader) = (start_reading.clone(), *c == Conn::BigResponse);
         let rc = received.clone();
         let mut s2 = s.try_clone().unwrap();
         let _ = s2.set_read_timeout(Some(Duration::from_millis(1500)));
         std::thread::spawn(move || {
-            let mut buf = [0u8; 1024];
+            while late_reader && !sr.load(std::sync::atomic::Ordering::SeqCst) {
+                std::thread::sleep(Duration::from_millis(2));
+            }
+            let mut buf = vec![0u8; 1 << 16];
             while let Ok(n) = s2.read(&mut buf) {
                 if n == 0 {
                     break;
@@ -115,7 +129,15 @@ fn replay(bind_ip: &str, conns: &[Conn]) -> Result<String, String> {
         });
         socks.push(s);
     }
+    // the signal comes once every slow request is being handled (bounded wait), so that "was being handled at
+    // the signal" is a fact and not a timing assumption
+    let n_long = conns.iter().filter(|c| **c == Conn::Long).count();
+    let w0 = Instant::now();
+    while entered.load(std::sync::atomic::Ordering::SeqCst) < n_long && w0.elapsed() < Duration::from_secs(3) {
+        std::thread::sleep(Duration::from_millis(2));
+    }
     std::thread::sleep(Duration::from_millis(60));
+    let n_entered = entered.load(std::sync::atomic::Ordering::SeqCst);
     let sent = Instant::now();
     token.cancel();
     let deadline = Instant::now() + Duration::from_secs(5);
@@ -136,7 +158,17 @@ fn replay(bind_ip: &str, conns: &[Conn]) -> Result<String, String> {
         return Err(format!("port cannot be bound again right after run() returned: {:?}", rebind.err()));
     }
     drop(rebind);
-    gate.notify_waiters();
+    gate.cancel();
+    start_reading.store(true, std::sync::atomic::Ordering::SeqCst);
+    let owed: Vec<usize> = (0..conns.len()).filter(|&i| (conns[i] == Conn::Long && n_entered == n_long) || conns[i] == Conn::BigResponse).collect();
+    let until = Instant::now() + Duration::from_secs(5);
+    loop {
+        let done = owed.iter().all(|&i| parse_responses(&received.lock().unwrap()[i]) == (1, 0));
+        if done || Instant::now() > until {
+            break;
+        }
+        std::thread::sleep(Duration::from_millis(5));
+    }
     std::thread::sleep(Duration::from_millis(40));
     let mut err = None;
     for (i, c) in conns.iter().enumerate() {
@@ -151,6 +183,9 @@ fn replay(bind_ip: &str, conns: &[Conn]) -> Result<String, String> {
         if matches!(c, Conn::Short | Conn::KeepAliveIdle) && n != 1 {
             err = Some(format!("connection {} ({:?}) sent a complete request before the signal and got {} responses", i, c, n));
         }
+        if owed.contains(&i) && n != 1 && leftover == 0 {
+            err = Some(format!("connection {} ({:?}): a request that was being handled at the signal got {} responses", i, c, n));
+        }
     }
     drop(socks);
     rt.shutdown_background();
@@ -162,7 +197,7 @@ fn replay(bind_ip: &str, conns: &[Conn]) -> Result<String, String> {
 
 pub fn run(quick: bool) -> Stats {
     let mut st = Stats::default();
-    let kinds = [Conn::JustConnected, Conn::HalfRequest, Conn::Short, Conn::KeepAliveIdle, Conn::Long, Conn::WebSocket];
+    let kinds = [Conn::JustConnected, Conn::HalfRequest, Conn::Short, Conn::KeepAliveIdle, Conn::Long, Conn::WebSocket, Conn::BigResponse];
     let mut scns: Vec<(&str, Vec<Conn>)> = vec![("127.0.0.1", vec![]), ("0.0.0.0", vec![]), ("::", vec![])];
     for k in kinds {
         scns.push(("127.0.0.1", vec![k]));
@@ -195,7 +230,7 @@ pub fn run(quick: bool) -> Stats {
         st.traces_validated += 1;
         match r {
             Ok(_) => st.outcome("tokio: run returned, port free, nothing truncated"),
-            Err(e) => st.violation(format!("[tokio] {}", e.split(" (").next().unwrap_or("").split(':').next().unwrap_or("")), || json!({"scenario": name, "what": e})),
+            Err(e) => st.violation(format!("[tokio] {}", e.split("): ").last().unwrap_or("").split(':').next().unwrap_or("").chars().map(|c| if c.is_ascii_digit() { '#' } else { c }).collect::<String>()), || json!({"scenario": name, "what": e})),
         }
     }
     st.count("tokio traffic states replayed", scns.len() as u64);
